@@ -639,9 +639,13 @@ def check_primitives(prog):
         if len(defs) == 1:
             body = defs[0]
     dec_call = body if isinstance(body, ast.Call) and isinstance(body.func, ast.Attribute) and body.func.attr == "decode" else None
-    if dec_call is None or not isinstance(dec_call.func.value, ast.Subscript) or not isinstance(rest, ast.Subscript):
+    dec_src = dec_call.func.value if dec_call is not None else None
+    while isinstance(dec_src, ast.Call) and isinstance(dec_src.func, ast.Name) and dec_src.func.id in ("bytes", "bytearray") and len(dec_src.args) == 1 \
+            and not dec_src.keywords:
+        dec_src = dec_src.args[0]          # bytes(enc[2:end]).decode(..): a copy of the same bytes
+    if dec_call is None or not isinstance(dec_src, ast.Subscript) or not isinstance(rest, ast.Subscript):
         raise AnalysisError("decodeString: return not recognisable")
-    bs, rs_ = dec_call.func.value.slice, rest.slice
+    bs, rs_ = dec_src.slice, rest.slice
 
     def lin(e):
         """(const, uses length?)"""
